@@ -990,7 +990,11 @@ let op_guess r = function
   | _ -> failwith "guess: fields"
 
 (* ---------- op: augment (C19) ---------- *)
-let op_augment r = function
+let rec op_augment r = function
+  | [content; fs; frames; floats; i_snap; i_plain; named] ->
+    if named = "0" then flag r "prop:C19:pseudo-name-replaced-a-value";
+    if named = "P" then flag r "impl:panic";
+    op_augment r [content; fs; frames; floats; i_snap; i_plain]
   | [content; _fs; frames; floats; i_snap; i_plain] ->
     if starts_with i_snap "PANIC" then flag r "impl:panic"
     else if i_snap = "nil" || i_plain = "" then flag r "driver:augment-no-snapshot"
